@@ -194,23 +194,44 @@ def run(ctx: Ctx, rs: RuleSet, tier: str):
         n.value is not None]
   if not ys:
     raise AnalysisError('TagSelection.__iter__ yields nothing')
+  def arms(v):
+    if isinstance(v, ast.IfExp):
+      return arms(v.body) + arms(v.orelse)
+    return [v]
+
+  def arm_kind(v):
+    # how one yielded value is obtained
+    if any(isinstance(x, ast.Attribute) and x.attr == '__arguments__'
+           for x in roles.expand(ti, v, 2)):
+      return 'raw'
+    if isinstance(v, ast.Call) and unparse(v.func) == 'getattr':
+      return 'api'
+    if isinstance(v, ast.Subscript):
+      base = roles.deref(ti, v.value)
+      if isinstance(base, ast.Subscript) and isinstance(base.slice, ast.Slice):
+        return 'api'  # an element of the positional view X[:]
+    if isinstance(v, (ast.Attribute, ast.Name)) and unparse(v).split(
+        '.')[-1] == 'NO_VALUE':
+      return 'sentinel'
+    return 'other'
+
+  n_api = 0
   for y in ys:
-    raw = [x for x in roles.expand(ti, y.value, 2) if isinstance(
-        x, ast.Attribute) and x.attr == '__arguments__']
-    via_api = any(
-        (isinstance(x, ast.Call) and unparse(x.func) == 'getattr') or
-        (isinstance(x, ast.Subscript) and isinstance(x.slice, ast.Slice))
-        for x in roles.expand(ti, y.value, 2))
-    default_sentinel = 'NO_VALUE' in unparse(y.value)
-    ok = not raw and via_api and default_sentinel
+    kinds = [arm_kind(a) for a in arms(y.value)]
+    n_api += kinds.count('api')
+    ok = all(k in ('api', 'sentinel') for k in kinds)
     rs.check(ok, rule_t, f'{ti.qualname}:`{norm_text(ti, y.value, 50)}`',
              'read through getattr / the positional view, NO_VALUE as the '
              'last resort' if ok else
              f'`{unparse(y.value)[:70]}` ' + (
                  'reads the raw argument store: an unset argument with a '
-                 'default yields NO_VALUE instead of the default' if raw else
+                 'default yields NO_VALUE instead of the default'
+                 if 'raw' in kinds else
                  'is not read through getattr / the positional view'),
              ctx.loc(ti, y))
+  if not n_api:
+    rs.fail(rule_t, f'{ti.qualname}:reads', 'no yielded value is read through '
+            'getattr / the positional view', ctx.loc(ti, ti.node))
 
   # ---- replace: identity of non-matching nodes
   rule = 'IDENTITY.replace'
